@@ -81,11 +81,20 @@ func fnExec(ctx *cmdContext, args map[string]any) (output respValue, err error) 
 	for watch := range ctx.cs.copyWatches() {
 		watched[watch.ds] = true
 	}
+	// a queued FLUSHALL needs every data store: taken here, in order, with the others (two
+	// transactions that each owned their own data store and then flushed all waited for each
+	// other for ever)
+	flushesAll := false
+	for _, cc := range *ctx.cs.cmdQueue {
+		if strings.EqualFold(cc.cmdName, "flushall") {
+			flushesAll = true
+		}
+	}
 	for index := 0; index <= 15; index++ {
 		var ds *dataStore
 		if index == ctx.cs.selectedDb {
 			ds = ctx.dsc.ds
-		} else if existing, exists := ctx.cs.dss.getDb(index, false); exists && watched[existing] {
+		} else if existing, exists := ctx.cs.dss.getDb(index, false); exists && (watched[existing] || flushesAll) {
 			ds = existing
 		}
 		for _, cc := range *ctx.cs.cmdQueue {
